@@ -285,7 +285,16 @@ def run_session(variant, transport, faults, slots, glued=False):
             if xml:
                 mark_y = len(s.output("Y"))
                 mark_x = len(s.output("X"))
-                s.send(prefix + xml)
+                sent = s.send(prefix + xml)
+                # a valid message is processed when it arrives, not when some later traffic wakes the connection up
+                if sent == "ok":
+                    fid0 = "+".join(f[0] for f in faults) or "none"
+                    if what == "getProperties" and "<def" not in s.output("X")[mark_x:]:
+                        fails.append(("valid-message-delayed", d0, "fault %s%s: the getProperties of step %d was not answered when it arrived" % (fid0, " (same read)" if prefix else "", i)))
+                    if what in ("write", "final-write") and wk:
+                        tag = "set%sVector" % NEWTAG[wk]
+                        if tag not in s.output("Y")[mark_y:]:
+                            fails.append(("valid-message-delayed", d0, "fault %s%s: the valid write of step %d had no effect when it arrived (no %s published)" % (fid0, " (same read)" if prefix else "", i, tag)))
         obs["delivered_faults"] = delivered_faults
         # final request
         mark_x = len(s.output("X"))
